@@ -34,7 +34,7 @@ def units(ctx):
 def gen_cases(unit, ctx):
     if unit[0] == "hist":
         for h in hist.hist_of_unit(unit):
-            for n, d in ((4, 4), (7, 8), (12, 8), (3, 2), (5, 16), (2, 4)):
+            for n, d in ((4, 4), (7, 8), (12, 8), (3, 2), (5, 16), (2, 4), (5, 8), (7, 16), (5, 4)):
                 yield {"seed": unit[1], "build": unit[2], "hist": h, "n": n, "d": d, "sig": "none", "key": None}
         return
     n, d = unit
